@@ -451,7 +451,7 @@ def guarded_history(g, rng, queries=(), nrows=None):
     for v, p_ in zip(vs, point):
         cons.append(tb.app("<=", [num(p_ - rng.randint(0, 4)), v]))
         cons.append(tb.app("<=", [v, num(p_ + rng.randint(0, 4))]))
-    for _ in range(nrows or rng.randint(10, 28)):
+    for _ in range(nrows or rng.choice([12, 20, 26, 30, 34])):
         k = rng.randint(2, min(4, len(vs)))
         idx = rng.sample(range(len(vs)), k)
         coefs = [rng.choice([-3, -2, -1, 1, 2, 3]) for _ in idx]
